@@ -232,7 +232,9 @@ def record_files_case(cid, Ts, binmode, mods, seed, with_cli=False, origin='rand
             try:
                 with contextlib.redirect_stderr(io.StringIO()):
                     getattr(go, fmt)(copy.deepcopy(gram), copy.deepcopy(lex), dest, wenc,
-                                     **({'lex_in_grammar': True} if lig else {}))
+                                     # (an option is on when its key is given, whatever value it carries:
+                                     #  `--dest-opts lex_in_grammar:0` arrives as the integer 0)
+                                     **({'lex_in_grammar': (True, 0, False, 1)[seed % 4]} if lig else {}))
                 ev['res'] = 'ok'
                 if fmt == 'pmcfg':
                     ev['files']['pmcfg'] = pmcfg_records(dest + '.pmcfg', atoms, wenc)
